@@ -47,6 +47,13 @@ def gen_cases(rng, tier):
         n = rng.choice([max(1, m - 2), max(1, m - 1), m, m + 1, min(2 * m, m + 8), rng.randint(1, 12)])
         shapes = chain_shapes(rng, n, nodes, lits)
         cases.append({"shapes": shapes, "sg": S.shapes_to_rdf(shapes), "data": data, "opts": {"max_validation_depth": m}, "kind": "chain"})
+    for _ in range(n_chain // 2):
+        # nesting that continues through a disjoint sibling of a qualified value shape
+        data, nodes, lits = S.gen_typed_data(rng, n_iri=rng.randint(2, 4), n_bn=0, n_lit=1, n_triples=rng.randint(5, 10))
+        deep = rng.randint(0, 6)
+        shapes = S.tmpl_qualified(rng, nodes, lits, deep=deep, easy=True)
+        m = rng.choice([max(1, deep), deep + 1, deep + 2, deep + 3, deep + 4, rng.randint(1, 8)])
+        cases.append({"shapes": shapes, "sg": S.shapes_to_rdf(shapes), "data": data, "opts": {"max_validation_depth": m}, "kind": "sibling-chain"})
     for _ in range(n_rec):
         data, nodes, lits = S.gen_typed_data(rng, n_iri=rng.randint(2, 3), n_bn=0, n_lit=1, n_triples=rng.randint(3, 8))
         shapes = S.gen_shapes(rng, nodes, lits, n_shapes=rng.randint(1, 4), recursive=True, p_deact=0.05, sev=False)
